@@ -572,13 +572,16 @@ Section WithEscape.
    releases the run permit of a paused, still interrupted engine". *)
 Variable G : Prop.
 
+(* both stacks are aligned and not empty *)
+Definition aligned (s : st) : Prop :=
+  List.length (resps s) = List.length (plans s) /\ 0 < List.length (plans s).
 Definition stack_c (c : ctl) (s : st) : Prop :=
   match c with
-  | CTop | CBody | CAfterSleep => List.length (resps s) = List.length (plans s)
+  | CTop | CBody | CAfterSleep => aligned s
   | CProcess _ => S (List.length (resps s)) = List.length (plans s)
   | CContinue p _ | CCancelled p =>
       if p then S (List.length (resps s)) = List.length (plans s)
-      else List.length (resps s) = List.length (plans s)
+      else aligned s
   | CExit _ | CFinalize _ _ => True
   end.
 Definition permit_c (c : ctl) (s : st) : Prop :=
@@ -617,7 +620,7 @@ Definition DInv (c : ctl) (s : st) : Prop :=
 
 Definition stack_a (s : st) : Prop :=
   match pc s with
-  | PcNotStarted | PcPermit0 | PcSleep0 | PcPaused => List.length (resps s) = List.length (plans s)
+  | PcNotStarted | PcPermit0 | PcSleep0 | PcPaused => aligned s
   | PcCmd _ => S (List.length (resps s)) = List.length (plans s)
   | _ => True
   end.
@@ -653,7 +656,7 @@ Proof. unfold RE.set_state. destruct (allowed (state s) x); intros H; [discrimin
 Hypothesis HG : pause_hook_ctl -> G.
 
 Ltac open_inv :=
-  unfold DInv, Inv, stack_c, permit_c, stash_c, cancel_c, pr_c, stack_a, R6, PR in *.
+  unfold DInv, Inv, stack_c, permit_c, stash_c, cancel_c, pr_c, stack_a, aligned, R6, PR in *.
 
 Ltac rw_proj :=
   repeat match goal with
@@ -669,7 +672,7 @@ Ltac norm_imp := repeat match goal with H : ?a = ?a -> _ |- _ => specialize (H e
 Ltac fin1 := intuition (subst; try assumption; try reflexivity; try discriminate; try congruence; try lia;
                         try (rw_proj; simp_fn; discriminate)).
 Ltac fin0 :=
-  try solve [ assumption | reflexivity | discriminate | congruence | lia | fin1
+  try solve [ assumption | reflexivity | discriminate | congruence | lia | subst; simp_fn; lia | fin1
             | match goal with
               | |- ?x = false => destruct x eqn:?; [exfalso | reflexivity]
               | |- ?x = true => destruct x eqn:?; [reflexivity | exfalso]
@@ -1228,7 +1231,7 @@ Proof. intros HI; apply HI. Qed.
 Lemma cbody_assert_holds s :
   DInv G CBody s -> negb (Nat.eqb (List.length (resps s)) (List.length (plans s))) = false.
 Proof.
-  intros (_ & _ & _ & H4 & _). cbn [stack_c] in H4. rewrite H4, Nat.eqb_refl. reflexivity.
+  intros (_ & _ & _ & H4 & _). cbn [stack_c] in H4. destruct H4 as [H4 _]. rewrite H4, Nat.eqb_refl. reflexivity.
 Qed.
 Lemma cbody_no_assert_exit fuel s os :
   DInv G CBody s ->
@@ -1239,8 +1242,7 @@ Lemma cbody_no_assert_exit fuel s os :
   end.
 Proof. intros HD. cbn [RE.drive]. rewrite (cbody_assert_holds s HD). reflexivity. Qed.
 (* the only await point from which `_run` re-enters the loop at CBody *)
-Lemma paused_resume_aligned s :
-  Inv G s -> pc s = PcPaused -> List.length (resps s) = List.length (plans s).
+Lemma paused_resume_aligned s : Inv G s -> pc s = PcPaused -> aligned s.
 Proof. intros HI Hp. pose proof (inv_stacks_aligned s HI) as H. unfold stack_a in H. rewrite Hp in H. exact H. Qed.
 
 (* the cleanup (`finally`) of `_run` is never refused the move to idle *)
@@ -1281,7 +1283,7 @@ Qed.
 (* (I4), strong form: the assertion at the top of the loop body never fails *)
 Theorem no_assertion_exit s s1 os1 :
   Inv G s -> visited s (s1, CBody, os1) ->
-  List.length (resps s1) = List.length (plans s1) /\
+  aligned s1 /\
   dstep s1 CBody os1 =
   match stashed s1 with
   | None => inr (RE.set_pc P D s1 PcSleep0, os1 ++ [OTask WSleep0])
@@ -1289,7 +1291,19 @@ Theorem no_assertion_exit s s1 os1 :
   end.
 Proof.
   intros HI Hv. pose proof (visited_DInv _ _ _ _ HI Hv) as HD.
-  split; [apply HD|]. cbn [dstep]. rewrite (cbody_assert_holds s1 HD). reflexivity.
+  split; [destruct HD as (_ & _ & _ & H4 & _); exact H4|]. cbn [dstep]. rewrite (cbody_assert_holds s1 HD). reflexivity.
+Qed.
+
+(* ... and the plan to resume and the response to send it always exist (no OBad 2) *)
+Theorem stacks_never_empty s s1 os1 :
+  Inv G s -> visited s (s1, CAfterSleep, os1) ->
+  exists r rest top below, resps s1 = r :: rest /\ plans s1 = top :: below /\
+                           List.length rest = List.length below.
+Proof.
+  intros HI Hv. pose proof (visited_DInv _ _ _ _ HI Hv) as HD.
+  destruct HD as (_ & _ & _ & [H4 H5] & _).
+  destruct (resps s1) as [|r rest]; destruct (plans s1) as [|top below]; cbn [List.length] in *; try lia.
+  exists r, rest, top, below. repeat split; try reflexivity. lia.
 Qed.
 
 (* (I1), strong form: whenever the interpreter runs the cleanup, the move to idle is accepted *)
@@ -1388,8 +1402,7 @@ Proof. intros H; left; exact H. Qed.
 (* whenever the task of a reachable state is resumed, in every configuration the interpreter
    goes through: the loop-body assertion holds, and the cleanup's move to idle is accepted *)
 Theorem assertion_never_fails s1 os1 :
-  ~ In (OBad 1) oN -> visited sN (s1, CBody, os1) ->
-  List.length (resps s1) = List.length (plans s1).
+  ~ In (OBad 1) oN -> visited sN (s1, CBody, os1) -> aligned s1.
 Proof. intros Hno Hv. eapply no_assertion_exit; [exact escape_hook | apply reach_Inv, Hno | exact Hv]. Qed.
 
 Theorem cleanup_never_refused s1 r pend os1 :
